@@ -224,11 +224,111 @@ pub fn draw_subset<'a>(t: &mut Tape, pool: &'a [&'a str], lo: usize, hi: usize) 
     out
 }
 
+/// A Unicode scalar value drawn by class, so that every C0/C1 control, the BMP, the astral
+/// planes and the noncharacters are all reachable (the pool alone names only a few of them).
+pub fn draw_char(t: &mut Tape) -> char {
+    let c = match t.draw(8) {
+        0 | 1 => t.draw(0x20) as u32,                 // every C0 control
+        2 => 0x7F + t.draw(0x21) as u32,              // DEL and C1
+        3 => 0x20 + t.draw(0x5F) as u32,              // printable ASCII
+        4 => 0xA0 + t.draw(0x2F60) as u32,            // Latin-1 .. CJK radicals
+        5 => t.draw(0xD800) as u32,                   // anywhere below the surrogates
+        6 => 0xE000 + t.draw(0x2000) as u32,          // private use .. specials (FFFE, FFFF)
+        _ => 0x10000 + t.draw(0x100000) as u32,       // astral planes
+    };
+    char::from_u32(c).unwrap_or('\u{FFFD}')
+}
+
+
+/// A structured random absolute IRI: every RFC 3987 component is drawn separately, with
+/// percent-escapes in both hex cases, ucschar / iprivate characters, IPv4/IPv6 hosts, userinfo,
+/// ports, empty segments and dot segments. (Whether the toolkit's validator agrees with the
+/// RFC is C09's business; here these IRIs are workload for parsers, serializers and stores.)
+pub fn draw_iri(t: &mut Tape) -> String {
+    fn chunk(t: &mut Tape, extra: &[&str]) -> String {
+        const COMMON: &[&str] = &[
+            "a", "b", "Z", "0", "9", "-", ".", "_", "~", "%41", "%c3%a9", "%C3%A9", "%e2%82%ac", "%7e", "%2F",
+            "%2f", "!", "$", "&", "'", "(", ")", "*", "+", ",", ";", "=", "\u{e9}", "\u{4e2d}", "\u{1F600}",
+            "\u{a0}", "\u{d7ff}", "\u{f900}", "\u{e1000}",
+        ];
+        let n = t.range(0, 4);
+        let mut s = String::new();
+        for _ in 0..n {
+            let k = t.below(COMMON.len() + extra.len());
+            s.push_str(if k < COMMON.len() { COMMON[k] } else { extra[k - COMMON.len()] });
+        }
+        s
+    }
+    let scheme = ["http", "https", "urn", "x-a.b+c", "HTTP", "tag", "file"][t.below(7)];
+    let mut s = format!("{scheme}:");
+    if t.chance(3, 4) {
+        s.push_str("//");
+        if t.chance(1, 4) {
+            s.push_str(&chunk(t, &[":"]));
+            s.push('@');
+        }
+        match t.draw(6) {
+            0 => s.push_str("[::1]"),
+            1 => s.push_str("[2001:db8::ff00:42:8329]"),
+            2 => s.push_str("[v1.a:b]"),
+            3 => s.push_str("127.0.0.1"),
+            4 => {
+                s.push_str("ex");
+                s.push_str(&chunk(t, &[]));
+                s.push_str(".org");
+            }
+            _ => s.push_str("example.org"),
+        }
+        if t.chance(1, 4) {
+            s.push_str([":", ":80", ":0", ":65536"][t.below(4)]);
+        }
+        let nseg = t.range(0, 3);
+        for _ in 0..nseg {
+            s.push('/');
+            s.push_str(&match t.draw(6) {
+                0 => String::new(),
+                1 => "..".to_string(),
+                2 => ".".to_string(),
+                _ => chunk(t, &[":", "@"]),
+            });
+        }
+    } else {
+        // no authority: the path must not begin with "//"
+        let path = chunk(t, &[":", "@", "/"]);
+        let path = match path.strip_prefix("//") {
+            Some(rest) => format!("/{}", rest.trim_start_matches('/')),
+            None => path,
+        };
+        s.push_str(&path);
+    }
+    if t.chance(1, 3) {
+        s.push('?');
+        s.push_str(&chunk(t, &[":", "@", "/", "?", "\u{e000}", "\u{f0000}"]));
+    }
+    if t.chance(1, 2) {
+        s.push('#');
+        s.push_str(&chunk(t, &[":", "@", "/", "?"]));
+    }
+    s
+}
+
 pub fn draw_literal(t: &mut Tape, p: &Profile) -> MTerm {
     let mut lex = LEX_POOL[t.below(LEX_POOL.len())].to_string();
     if t.chance(1, 6) {
         // concatenate two pool entries: escapes next to each other, next to token edges
         lex.push_str(LEX_POOL[t.below(LEX_POOL.len())]);
+    }
+    if t.chance(1, 4) {
+        // a few scalar values drawn by class, spliced at either end
+        let n = t.range(1, 3);
+        for _ in 0..n {
+            let c = draw_char(t);
+            if t.flag() {
+                lex.push(c);
+            } else {
+                lex.insert(0, c);
+            }
+        }
     }
     if p.xml_chars {
         lex.retain(is_xml_char);
@@ -245,7 +345,17 @@ pub fn draw_literal(t: &mut Tape, p: &Profile) -> MTerm {
 
 impl Alphabet {
     pub fn draw(t: &mut Tape, p: &Profile) -> Self {
-        let iris = draw_subset(t, IRI_POOL, 2, 6);
+        let mut iris = draw_subset(t, IRI_POOL, 2, 6);
+        if t.chance(1, 3) {
+            for _ in 0..t.range(1, 2) {
+                let i = draw_iri(t);
+                // terms are built through the validating constructors: keep what they accept
+                // (C08 feeds the same generator to the parsers as raw text, unfiltered)
+                if !iris.contains(&i) && sophia_api::term::IriRef::new(i.as_str()).is_ok() {
+                    iris.push(i);
+                }
+            }
+        }
         let bnodes = draw_subset(t, BNODE_POOL, 1, p.max_bnodes.max(1));
         let nl = t.range(1, 5);
         let lits = (0..nl).map(|_| draw_literal(t, p)).collect();
